@@ -388,12 +388,47 @@ class Interp:
                         st.env.assume_eq(O(1, 'ule', ns, end), 1)
                         st.mem[root] = ('agg', cur[1], (ns, end))
                         continue
-                    st.mem[root] = S(type_bits(ty), 'loopvar:%s:_%d' % (tag, p['local']))
+                    ns_ = S(type_bits(ty), 'loopvar:%s:_%d' % (tag, p['local']))
+                    mono = self._monotone(fn, body, p['local']) if (not p['proj'] and cur is not None and is_int(cur)
+                                                                     and int_type(ty) and not ty.startswith('i')) else None
+                    if mono == 'up':
+                        st.env.assume_eq(O(1, 'ule', cur, ns_), 1)     # a counter that only grows in the loop
+                    elif mono == 'down':
+                        st.env.assume_eq(O(1, 'ule', ns_, cur), 1)
+                    st.mem[root] = ns_
                 else:
                     last = [(e['owner'], e['name']) for e in p['proj'] if e['k'] == 'field' and e['owner']]
                     if last:
                         fields.add(last[-1])
         self.wrap_havoc(st, fields, unknown, tag)
+
+    def _monotone(self, fn, body, local):
+        """'up' / 'down' when every assignment to `local` inside the loop body is local = local (+|-) x with the checked
+        (overflow-asserting) operator on an unsigned type; None otherwise"""
+        kinds = set()
+        for b in body:
+            for s in fn['blocks'][b]['stmts']:
+                if s['k'] != 'assign' or s['place']['local'] != local or s['place']['proj']:
+                    continue
+                rv = s['rv']
+                src = None
+                if rv['k'] == 'use' and rv['op']['k'] in ('copy', 'move') and len(rv['op']['place']['proj']) == 1 and \
+                        rv['op']['place']['proj'][0]['k'] == 'field' and rv['op']['place']['proj'][0]['i'] == 0:
+                    src = rv['op']['place']['local']
+                if src is None:
+                    return None
+                defs = [s2['rv'] for b2 in body for s2 in fn['blocks'][b2]['stmts']
+                        if s2['k'] == 'assign' and s2['place']['local'] == src and not s2['place']['proj']]
+                if len(defs) != 1 or defs[0]['k'] != 'binop' or defs[0]['op'] not in ('AddWithOverflow', 'SubWithOverflow'):
+                    return None
+                a = defs[0]['a']
+                if not (a['k'] in ('copy', 'move') and a['place']['local'] == local and not a['place']['proj']):
+                    return None
+                kinds.add('up' if defs[0]['op'] == 'AddWithOverflow' else 'down')
+        # the overflow assert of the checked operator must not be skipped
+        if len(kinds) == 1:
+            return kinds.pop()
+        return None
 
     def _havoc_root(self, st, root, tag):
         if root[0] == 'O':
